@@ -14,8 +14,10 @@ package main
 
 import (
 	"bytes"
+	"crypto"
 	"crypto/rand"
 	"fmt"
+	"io"
 	"strconv"
 	"strings"
 	"sync"
@@ -384,6 +386,17 @@ func runAuth(ccfg, scfg *gmtls.Config, mitm mitmFunc) (res pairResult, cStalled,
 	return
 }
 
+// hookSigner is a scripted private key: the malicious end decides what its "signature" is
+type hookSigner struct {
+	pub crypto.PublicKey
+	f   func(tbs []byte) ([]byte, error)
+}
+
+func (s hookSigner) Public() crypto.PublicKey { return s.pub }
+func (s hookSigner) Sign(_ io.Reader, tbs []byte, _ crypto.SignerOpts) ([]byte, error) {
+	return s.f(tbs)
+}
+
 // ---- the op ----------------------------------------------------------------------------------------------------------
 
 var c08Policies = map[string]gmtls.ClientAuthType{"none": gmtls.NoClientCert, "request": gmtls.RequestClientCert,
@@ -505,6 +518,7 @@ func evalAuth(args []string) string {
 	am := newAuthMitm()
 	var capture *authMitm // another session of the same two parties, run first
 	needCapture := false
+	var pre, post func() string // run before / after the connection under test; a non-empty result is the op's result
 
 	switch attack {
 	case "honest":
@@ -551,26 +565,15 @@ func evalAuth(args []string) string {
 	case "s-dual":
 		sc(x.dual, x.dual)
 
-	// a malicious server that signs something else than this session's randoms and encryption certificate
+	// a malicious server that holds the signing key but signs something else than this session's randoms and
+	// encryption certificate (or signs with another key): a real gmtls server whose "private key" is scripted
 	case "ske-otherrandoms", "ske-otherclientrandom", "ske-otherserverrandom", "ske-swaprandoms", "ske-othercert", "ske-nolen",
 		"ske-by-enckey", "ske-by-otherkey", "ske-empty":
-		am.rewrite = func(a *authMitm, dir string, idx int, msg hsm) []hsm {
-			if dir != "s2c" || msg.typ != hsServerKeyExchange {
-				return []hsm{msg}
+		st.scfg.Certificates[0] = gmtls.Certificate{Certificate: m.sign.Certificate, PrivateKey: hookSigner{&keyFor(2001).PublicKey, func(tbs []byte) ([]byte, error) {
+			if len(tbs) < 67 {
+				return nil, fmt.Errorf("unexpected input to the key-exchange signature")
 			}
-			ch, ok1 := a.find("c2s", hsClientHello)
-			sh, ok2 := a.find("s2c", hsServerHello)
-			cm, ok3 := a.find("s2c", hsCertificate)
-			if !ok1 || !ok2 || !ok3 {
-				return []hsm{msg}
-			}
-			chf, _ := parseHello(ch.body, false)
-			shf, _ := parseHello(sh.body, true)
-			certs, _ := parseCertMsg(cm.body)
-			if len(certs) < 2 {
-				return []hsm{msg}
-			}
-			cr, sr, ec, key, lp := chf.random, shf.random, certs[1], 2001, true
+			cr, sr, ec, key, lp := tbs[:32], tbs[32:64], tbs[67:], 2001, true
 			fresh := func(seed uint64) []byte { return newRng(seed).bytes(32) }
 			switch attack {
 			case "ske-otherrandoms":
@@ -590,9 +593,73 @@ func evalAuth(args []string) string {
 			case "ske-by-otherkey":
 				key = 2950
 			case "ske-empty":
-				return []hsm{{hsServerKeyExchange, []byte{0, 0}}}
+				return []byte{}, nil
 			}
-			return []hsm{{hsServerKeyExchange, lenPrefixed16(sm2Sign(key, skeInput(cr, sr, ec, lp)))}}
+			return sm2Sign(key, skeInput(cr, sr, ec, lp)), nil
+		}}}
+	// … or replays the signature it made in another session in which it used the same server random
+	case "ske-replay":
+		var recorded, sr1, sr2 []byte
+		first := *st.scfg
+		first.Rand = newRng(4242)
+		first.Certificates = []gmtls.Certificate{{Certificate: m.sign.Certificate, PrivateKey: hookSigner{&keyFor(2001).PublicKey, func(tbs []byte) ([]byte, error) {
+			recorded = sm2Sign(2001, tbs)
+			if len(tbs) >= 64 {
+				sr1 = append([]byte{}, tbs[32:64]...)
+			}
+			return recorded, nil
+		}}}, m.enc}
+		pre = func() string {
+			runAuth(st.ccfg, &first, nil)
+			if recorded == nil {
+				return "bad-op:nothing-captured"
+			}
+			return ""
+		}
+		st.scfg.Rand = newRng(4242)
+		st.scfg.Certificates[0] = gmtls.Certificate{Certificate: m.sign.Certificate, PrivateKey: hookSigner{&keyFor(2001).PublicKey, func(tbs []byte) ([]byte, error) {
+			if len(tbs) >= 64 {
+				sr2 = append([]byte{}, tbs[32:64]...)
+			}
+			return recorded, nil
+		}}}
+		post = func() string {
+			if !bytes.Equal(sr1, sr2) || sr1 == nil {
+				return "bad-op:server-random-not-reproduced"
+			}
+			return ""
+		}
+	// a malicious client that holds the certified key but signs another digest, or replays the CertificateVerify
+	// signature of another session, or sends an empty one (no effect when it presents no certificate)
+	case "cv-replay", "cv-otherdigest", "cv-empty":
+		if cc != nil {
+			base, _ := cc.PrivateKey.(*sm2.PrivateKey)
+			var recorded []byte
+			forged := *cc
+			cc = &forged
+			if attack == "cv-replay" {
+				rec := forged
+				rec.PrivateKey = hookSigner{&base.PublicKey, func(tbs []byte) ([]byte, error) {
+					sig, err := base.Sign(rand.Reader, tbs, nil)
+					recorded = sig
+					return sig, err
+				}}
+				firstC := *st.ccfg
+				firstC.GetClientCertificate = func(*gmtls.CertificateRequestInfo) (*gmtls.Certificate, error) { return &rec, nil }
+				pre = func() string { runAuth(&firstC, st.scfg, nil); return "" }
+			}
+			forged.PrivateKey = hookSigner{&base.PublicKey, func(tbs []byte) ([]byte, error) {
+				switch attack {
+				case "cv-otherdigest":
+					return base.Sign(rand.Reader, flipAt(tbs, 5, 1), nil)
+				case "cv-empty":
+					return []byte{}, nil
+				}
+				if recorded == nil { // nothing was captured (no certificate was requested): sign normally
+					return base.Sign(rand.Reader, tbs, nil)
+				}
+				return recorded, nil
+			}}
 		}
 	// a man in the middle that substitutes its own pre-master secret, encrypted to the server's key
 	case "cke-forge":
@@ -820,6 +887,11 @@ func evalAuth(args []string) string {
 		runAuth(st.ccfg, st.scfg, capture.f)
 	}
 
+	if pre != nil {
+		if r := pre(); r != "" {
+			return r
+		}
+	}
 	f := am.f
 	if attack == "mitm-flip" {
 		f = rawFlip(am, []string{"c2s", "s2c"}[par(0)&1], par(1), par(2), byte(par(3)))
@@ -827,6 +899,11 @@ func evalAuth(args []string) string {
 	res, cStalled, sStalled := runAuth(st.ccfg, st.scfg, f)
 	_ = cStalled
 	_ = sStalled
+	if post != nil {
+		if r := post(); r != "" {
+			return r
+		}
+	}
 
 	if res.c.panicked != "" {
 		return "ORACLE-FAIL:panic:client:" + strings.ReplaceAll(res.c.panicked, " ", "_")
@@ -959,7 +1036,7 @@ var c08ServerAttacks = []string{"s-signkey-wrong", "s-enckey-wrong", "s-untruste
 	"s-expired-sign", "s-expired-enc", "s-notyet-sign", "s-notyet-enc", "s-wrongname-sign", "s-wrongname-enc",
 	"s-rsa-sign", "s-rsa-enc", "s-p256-sign", "s-p256-enc", "s-swapped", "s-noku-sign", "s-noku-enc", "s-kusign-enc", "s-kuenc-sign", "s-dual",
 	"ske-otherrandoms", "ske-otherclientrandom", "ske-otherserverrandom", "ske-swaprandoms", "ske-othercert", "ske-nolen",
-	"ske-by-enckey", "ske-by-otherkey", "ske-empty", "cke-forge"}
+	"ske-by-enckey", "ske-by-otherkey", "ske-empty", "ske-replay", "cke-forge"}
 
 var c08Mitm = []string{"mitm-ch-version", "mitm-ch-version-low", "mitm-ch-random", "mitm-ch-sessionid", "mitm-ch-suites-other",
 	"mitm-ch-suites-reorder", "mitm-ch-suites-append", "mitm-ch-compression", "mitm-ch-compression-only", "mitm-ch-ext-strip",
